@@ -130,6 +130,13 @@ def scenario_for(seed, index, tier):
             if rng.random() < 0.7:
                 ver['name'] = rng.choice(['1.x-sim', 'Paper 1.16.5',
                                           'weird "name"'])
+                pool_ = sorted(q for q in (allowed_protos or usable)
+                               if q in byproto and
+                               q != status['protocol'])
+                if pool_ and rng.random() < 0.4:
+                    # a proxy that reports one version by name and another
+                    # by number: the number is what counts
+                    ver['name'] = sorted(byproto[rng.choice(pool_)])[0]
             obj = {'version': ver, 'description': {'text': 'hi'},
                    'players': {'max': 20, 'online': 1}}
         elif status['shape'] == 'no-version':
